@@ -112,7 +112,7 @@ func ConnectWithConfig(c *ConnConfig) (*Conn, error) {
 		c.PingInterval = defaultPingInterval
 	}
 
-	wireConn, err := c.connectWire()
+	wireConn, err := c.connectWire(context.Background())
 	if err != nil {
 		return nil, errors.Errorf("failed to connect wire: %w", err)
 	}
@@ -672,7 +672,7 @@ func (c *Conn) reconnect(ctx context.Context) error {
 	retry.Do(func() (end bool) {
 		c.logger.Infof(ctx, "Try reconnecting...")
 
-		res, resErr = c.Config.connectWire()
+		res, resErr = c.Config.connectWire(ctx)
 		if resErr != nil {
 			return c.state.Is(connStatusClosed)
 		}
